@@ -104,22 +104,29 @@ def frames_overlap_free(hist) -> bool:
 
 
 def has_knife_edge(hist, tol=1e-9) -> bool:
-    """Any pair distance within tol of a radius sum or of the cut-off?"""
+    """Any pair distance within tol of a radius sum or of the cut-off?  Histories flagged
+    ``exact`` live on a dyadic lattice where all these quantities are computed exactly: there an
+    exact tie is decided by the strict wording of the statement instead of being skipped."""
     per = periods_of(hist)
     md = hist.get("max_dist")
     frames = hist["frames"]
+    exact = bool(hist.get("exact"))
+
+    def near(x):
+        return abs(x) <= tol and not (exact and x == 0.0)
+
     for i, fr in enumerate(frames):
         for a, b in itertools.combinations(fr, 2):
             d = geom.distance(a[:-1], b[:-1], per)
-            if abs(d - a[-1] - b[-1]) <= tol:
+            if near(d - a[-1] - b[-1]):
                 return True
         if i + 1 < len(frames):
             for a in fr:
                 for b in frames[i + 1]:
                     d = geom.distance(a[:-1], b[:-1], per)
-                    if abs(d - a[-1] - b[-1]) <= tol:
+                    if near(d - a[-1] - b[-1]):
                         return True
-                    if md is not None and math.isfinite(md) and abs(d - md) <= tol:
+                    if md is not None and math.isfinite(md) and near(d - md):
                         return True
     return False
 
@@ -135,6 +142,7 @@ def index_tracks(hist, tracks, rec):
             lookup.setdefault((_tkey(t), common.droplet_bytes(d)), []).append((i, j))
     out = []
     unknown = []
+    used = {}
     for tr in tracks:
         members = []
         for t, d in zip(tr.times, tr.droplets):
@@ -144,7 +152,11 @@ def index_tracks(hist, tracks, rec):
                 unknown.append((t, list(map(float, np.atleast_1d(d.position))), d.radius))
                 members.append(None)
             else:
-                members.append(cands[0])
+                # value-identical droplets of one frame (twins) are told apart by multiplicity: the k-th
+                # occurrence in the tracks is the k-th twin; one occurrence too many is a duplicate
+                k = used.get(key, 0)
+                used[key] = k + 1
+                members.append(cands[min(k, len(cands) - 1)])
         out.append(members)
     return out, unknown
 
@@ -424,6 +436,8 @@ def random_history(rng, *, overlapping=False):
             new.append((lo + rng.uniform(0, L, dim), float(rng.uniform(0.2, 1.0))))  # birth
         if rng.random() < 0.2:
             rng.shuffle(new)  # member order changes between frames
+        if overlapping and new and rng.random() < 0.08:
+            new.append(new[int(rng.integers(len(new)))])  # a value-identical twin in the same frame
         if not overlapping:
             kept = []
             for p, R in new:
@@ -439,6 +453,47 @@ def random_history(rng, *, overlapping=False):
         cut = [None, None, float(rng.uniform(0.1, 3.0)), float("inf"), -1.0][int(rng.integers(5))]
     hist = {"dim": dim, "grid": grid, "times": times, "frames": frames, "method": method, "max_dist": cut}
     return rand_member_class(rng, hist)
+
+
+def exact_history(rng):
+    """Droplets on a dyadic lattice with dyadic radii: touching (distance == radius sum) and
+    distance == cut-off occur exactly and are decided by the strict wording of the statement."""
+    dim = int(rng.choice([1, 2, 2]))
+    n = int(rng.integers(4, 9))
+    lo = float(rng.integers(-4, 5)) * 0.5
+    T = int(rng.integers(2, 6))
+    use_grid = bool(rng.random() < 0.5)
+    periodic = [bool(rng.integers(0, 2)) for _ in range(dim)]
+    grid = {"family": "cart", "bounds": [[lo, lo + float(n)]] * dim, "shape": [2 * n] * dim, "periodic": periodic} if use_grid else None
+    frames = []
+    k0 = int(rng.integers(1, 5))
+    cur = []
+    while len(cur) < k0:
+        p = tuple(lo + float(rng.integers(0, 2 * n)) * 0.5 for _ in range(dim))
+        if all(p != q for q, _ in cur):
+            cur.append((p, float(rng.choice([0.25, 0.5, 0.5, 0.75, 1.0]))))
+    for _t in range(T):
+        nxt = []
+        for p, R in cur:
+            if rng.random() < 0.1:
+                continue
+            step = [float(rng.choice([0.0, 0.0, 0.5, -0.5, 1.0])) for _ in range(dim)]
+            q = tuple(min(max(x + s_, lo), lo + n - 0.5) if not (grid and periodic[a]) else (x + s_ - lo) % n + lo
+                      for a, (x, s_) in enumerate(zip(p, step)))
+            if all(q != q2 for q2, _ in nxt):
+                nxt.append((q, R if rng.random() < 0.8 else float(rng.choice([0.25, 0.5, 0.75, 1.0]))))
+        if rng.random() < 0.25:
+            q = tuple(lo + float(rng.integers(0, 2 * n)) * 0.5 for _ in range(dim))
+            if all(q != q2 for q2, _ in nxt):
+                nxt.append((q, float(rng.choice([0.25, 0.5, 0.75]))))
+        if rng.random() < 0.2:
+            rng.shuffle(nxt)
+        frames.append([[float(x) for x in p] + [float(R)] for p, R in nxt])
+        cur = nxt
+    method = "overlap" if rng.random() < 0.6 else "distance"
+    cut = None if method == "overlap" else [None, 0.5, 1.0, 1.5, float("inf")][int(rng.integers(5))]
+    return {"dim": dim, "grid": grid, "times": [float(t) for t in range(len(frames))], "frames": frames,
+            "method": method, "max_dist": cut, "exact": True}
 
 
 def adversarial_history(rng):
